@@ -45,7 +45,7 @@ def vl_port_names(top):
     return ins, outs
 
 
-def compare_run(sysm, top, ins, outs, seq, tags, localize=None):
+def compare_run(sysm, top, ins, outs, seq, tags, localize=None, capture=None):
     """returns result dict"""
     try:
         text = rtl.generate(top)
@@ -62,39 +62,43 @@ def compare_run(sysm, top, ins, outs, seq, tags, localize=None):
     for w, v in zip(ins, seq[0]):
         w.put(v)
     sim = sysm.getSimulator()
-    try:
-        vs = vlog.Sim(mods, topname, inputs={n: v for n, v in zip(in_names, seq[0])})
-    except vlog.VSimError:
-        return discard('text_does_not_elaborate(C03)', tags)
-    trace = []
+    # the simulator trace first, then the Verilog text is executed over the same stimulus.  An out-of-range memory / bit
+    # index reads x in Verilog (IEEE 1364-2005 5.2.2): the text is run with such reads returning all zeros and, if any
+    # occurred, again with all ones - an output that follows the fill is undefined in Verilog and cannot equal the
+    # (always defined) simulator value in both runs
+    trace = [[w.get() for w in outs]]
+    internal = [capture() if capture else None]
+    for vec in seq:
+        for w, v in zip(ins, vec):
+            w.put(v)
+        sim.clk(1)
+        trace.append([w.get() for w in outs])
+        internal.append(capture() if capture else None)
 
-    def snap(t):
-        py = [w.get() for w in outs]
-        vv = [vs.peek(n) for n in out_names]
-        trace.append(py)
-        if vs.undefined_events:
-            return 'undefined'
-        if py != vv:
-            k = [i for i in range(len(py)) if py[i] != vv[i]][0]
-            return (t, k, py[k], vv[k])
-        return None
-
-    r = snap(0)
-    t = 0
-    if r is None:
-        for t, vec in enumerate(seq):
-            for w, v in zip(ins, vec):
-                w.put(v)
-            for n, v in zip(in_names, vec):
-                vs.poke(n, v)
-            sim.clk(1)
-            try:
+    def run_text(fill):
+        """returns (vs, first mismatch or 'undefined' or None)"""
+        vs = vlog.Sim(mods, topname, inputs={n: v for n, v in zip(in_names, seq[0])}, oob_fill=fill)
+        for t in range(len(seq) + 1):
+            if t > 0:
+                for n, v in zip(in_names, seq[t - 1]):
+                    vs.poke(n, v)
                 vs.cycle()
-            except vlog.VSimError as e:
-                return fail('verilog_does_not_converge', str(e), cls=tags)
-            r = snap(t + 1)
-            if r is not None:
-                break
+            vv = [vs.peek(n) for n in out_names]
+            if vs.undefined_events:
+                return vs, 'undefined'
+            if trace[t] != vv:
+                k = [i for i in range(len(vv)) if trace[t][i] != vv[i]][0]
+                return vs, (t, k, trace[t][k], vv[k])
+        return vs, None
+    try:
+        vs, r = run_text(0)
+        if r is None and vs.oob_reads:
+            tags = tags + ['out_of_range_index_read']
+            vs, r = run_text(1)
+    except vlog.VSimError as e:
+        if 'non-convergence' in str(e):
+            return fail('verilog_does_not_converge', str(e), cls=tags)
+        return discard('text_does_not_elaborate(C03)', tags)
     if r == 'undefined':
         return discard('undefined_in_verilog(div_by_zero)', tags)
     if r is not None:
@@ -102,7 +106,7 @@ def compare_run(sysm, top, ins, outs, seq, tags, localize=None):
         where = 'cycle0' if cyc == 0 else 'later'
         detail = ''
         if localize is not None:
-            detail = localize(vs, cyc)
+            detail = localize(vs, cyc, internal[cyc])
         return ('mismatch', where, detail,
                 'output {} ({}) at cycle {}: simulator {} , Verilog {} ; inputs {}\n--- text (head) ---\n{}'.format(
                     k, out_names[k], cyc, pv, vv, seq[:cyc + 1][-3:], text[:900]))
@@ -206,7 +210,7 @@ def run_netlist(case):
         d = {'i%d' % k: v & mask(desc['inputs'][k]['w']) for k, v in enumerate(vec)}
         seq.append([d[i] for i in in_ids])
 
-    def localize(vs, cyc):
+    def localize(vs, cyc, held):
         # first node (in evaluation order) whose net differs between the two simulations
         order = netgen.comb_order(desc)
         regs = [k for k, nd in enumerate(desc['nodes']) if is_state(nd)]
@@ -222,14 +226,14 @@ def run_netlist(case):
         walk(vs.top)
         for k in regs + order:
             s = 'n%d' % k
-            if s in found and s in b.wire and found[s] != b.wire[s].get():
+            if s in found and s in held and found[s] != held[s]:
                 nd = desc['nodes'][k]
                 feat = nd['op']
                 if nd['op'] == 'Reg':
                     feat += ''.join(['E' if nd['p'].get('en') else '', 'R' if nd['p'].get('rst') else ''])
                 return feat
         return '?'
-    r = compare_run(b.sys, top, ins, outs, seq, tags, localize=localize)
+    r = compare_run(b.sys, top, ins, outs, seq, tags, localize=localize, capture=lambda: {s: w.get() for s, w in b.wire.items()})
     if isinstance(r, tuple):
         feat = '|aliased_ports_shared_module' if aliased_shared(desc) else ''
         return fail('netlist|{}|{}{}'.format(r[2], r[1], feat), r[3], cls=tags)
@@ -244,7 +248,7 @@ def aliased_shared(desc):
 
 @st.composite
 def netlist_cases(draw, max_nodes, n_cycles):
-    desc = c03.under_top(draw(netlists(max_nodes=max_nodes, n_regs=(0, 5), n_mems=(0, 1), hierarchy=3, max_w=64, div=True, reg_values=True,
+    desc = c03.under_top(draw(netlists(max_nodes=max_nodes, n_regs=(0, 5), n_mems=(0, 1), hierarchy=3, max_w=64, div=True, reg_values=True, ops=netgen.COMB_OPS_BASIC + ['BitSel'],
                                        widths=[1, 2, 4, 4, 8, 8, 9, 16, 33, 64])))
     # twin blocks that are emitted under closely related shared module names: the same register with the opposite
     # / another reset value, so that a wrong sharing of module bodies shows at power-up or on reset
@@ -259,6 +263,17 @@ def netlist_cases(draw, max_nodes, n_cycles):
         desc['nodes'].append(twin)
         desc['order'].append(len(desc['nodes']) - 1)
         desc['outputs'] = sorted(set(desc['outputs'] + ['n%d' % k, 'n%d' % (len(desc['nodes']) - 1)]))
+    # a tap on one bit of a register through a multi-output leaf (BitsLSBF, the other outputs dangle) whose reader is
+    # instantiated before the leaf: the simulator has to reorder them, Verilog continuous assignments need no order
+    wide = [k for k in regs if desc['nodes'][k]['w'] >= 2]
+    if wide and draw(st.integers(0, 2)) == 0:
+        k = draw(st.sampled_from(wide))
+        g = desc['nodes'][k]['g']
+        n0 = len(desc['nodes'])
+        desc['nodes'].append({'op': 'BitSel', 'args': ['n%d' % k], 'w': 1, 'g': g, 'p': {'bit': draw(st.integers(0, desc['nodes'][k]['w'] - 1))}})
+        desc['nodes'].append({'op': 'Not', 'args': ['n%d' % n0], 'w': 1, 'g': g, 'p': {}})
+        desc['order'] = [n0 + 1] + desc['order'] + [n0]
+        desc['outputs'] = sorted(set(desc['outputs'] + ['n%d' % (n0 + 1)]))
     excluded = 0
     for nd in desc['nodes']:
         if nd['op'] == 'Add' and nd['args'][0] == nd['args'][1]:
